@@ -163,6 +163,28 @@ pub fn special_scalar(sel: u64, seed: u64) -> [u8; 32] {
             b = L;
             b[0] += 1;
         }
+        10 | 11 => {
+            // runs of one repeated byte (0x77: every radix-16 digit one below the carry threshold; 0x88, 0xff: every digit
+            // carries; ...) over a random stretch (10) or exactly one 64-bit word (11) of an otherwise random or zero
+            // scalar, the nibble just below the run at or above 8 half of the time so that a carry enters the run:
+            // window recodings (signed radix 16, sliding NAF) propagate a carry through the whole run
+            let r = crate::rng::splitmix64(seed);
+            if r & 1 == 0 {
+                b.copy_from_slice(&data(seed | 16, 32));
+            }
+            let pat = [0x77u8, 0x88, 0xff, 0x00, 0x78, 0x87, 0x7f, 0xf8][((r >> 1) % 8) as usize];
+            let (start, len) = if sel % 12 == 11 { (8 * ((r >> 4) % 4) as usize, 8usize) } else {
+                let st = ((r >> 4) % 31) as usize;
+                (st, 1 + ((r >> 9) as usize % (32 - st)))
+            };
+            for x in b[start..start + len].iter_mut() {
+                *x = pat;
+            }
+            if start > 0 && (r >> 20) & 1 == 1 {
+                b[start - 1] |= 0x80;
+            }
+            b[31] &= 0x7f;
+        }
         _ => {
             b.copy_from_slice(&data(seed | 16, 32));
             b[31] &= 0x7f;
@@ -312,10 +334,11 @@ pub const A_GE_ADDSUB: u8 = 16; // P + Q, P - Q via cached, doubling
 pub const A_GE_DECODE: u8 = 17; // from_bytes(special / random) -> to_bytes
 pub const A_FE_SQUARE_DOUBLE: u8 = 18;
 pub const A_FE_COMPLEMENT: u8 = 19; // dst = from_bytes(p - value(src1)): an independent representation of -src1
+pub const A_FE_CONST: u8 = 21; // dst = one of the public constants Fe::{ZERO, ONE, SQRTM1, D, D2} (arg), observed at once
 pub const A_FE_BITFLIP: u8 = 20; // dst = from_bytes(to_bytes(src1) with bit `arg` (0..254) flipped): unequal to src1 in exactly one bit
 const A_KINDS: &[&str] = &[
     "fe_load", "fe_add", "fe_sub", "fe_neg", "fe_mul", "fe_square", "fe_square_n", "fe_invert", "fe_pow25523", "fe_observe", "fe_eq", "sc_reduce", "sc_canonical", "sc_muladd", "ge_base",
-    "ge_double_scalarmult", "ge_addsub", "ge_decode", "fe_square_and_double", "fe_complement", "fe_bitflip",
+    "ge_double_scalarmult", "ge_addsub", "ge_decode", "fe_square_and_double", "fe_complement", "fe_bitflip", "fe_public_constant",
 ];
 
 /// p - v for a canonical little-endian v < p (harness arithmetic, only used to build inputs)
@@ -359,6 +382,10 @@ impl Scenario for ArithProg {
         let mut depth = [0u8; NREG];
         for r in 0..NREG {
             t.ops.push(Op::new(r as u8, A_FE_LOAD).arg(rng.below(20)).seed(rng.data_seed()));
+        }
+        if rng.chance(1, 3) {
+            // one register starts as a public constant of the field-element type (they are part of the API of both backends)
+            t.ops.push(Op::new(rng.below(NREG as u64) as u8, A_FE_CONST).arg(rng.below(5)));
         }
         let n = rng.range(2, if tier == Tier::Thorough { 40 } else { 20 });
         for _ in 0..n {
@@ -700,6 +727,21 @@ impl Scenario for ArithProg {
                     })
                     .map(|f| {
                         regs[dst] = f;
+                        depth[dst] = 0;
+                    })
+                }
+                A_FE_CONST => {
+                    let c = match op.arg % 5 {
+                        0 => Fe::ZERO,
+                        1 => Fe::ONE,
+                        2 => Fe::SQRTM1,
+                        3 => Fe::D,
+                        _ => Fe::D2,
+                    };
+                    guarded(|| (c.to_bytes(), c.is_negative())).map(|(b, neg)| {
+                        obs.out(&b);
+                        obs.out_flag("is_negative", neg);
+                        regs[dst] = c.clone();
                         depth[dst] = 0;
                     })
                 }
